@@ -335,6 +335,22 @@ func direct(s ast.Stmt) (kinds []string) {
 					add("lock")
 				}
 			}
+			// atomic operations and sync.Map-style accessors are synchronisation
+			// points too: two of them in a row are not atomic together
+			if se, ok := n.Fun.(*ast.SelectorExpr); ok {
+				if id, ok := se.X.(*ast.Ident); ok && id.Name == "atomic" {
+					add("atomic")
+				} else {
+					switch se.Sel.Name {
+					case "LoadOrStore", "LoadAndDelete", "CompareAndSwap", "CompareAndDelete", "Swap":
+						add("atomic")
+					case "Load", "Store", "Delete", "Add":
+						if len(n.Args) <= 2 && isSyncish(se.X) {
+							add("atomic")
+						}
+					}
+				}
+			}
 		}
 		return true
 	}
@@ -372,6 +388,24 @@ func direct(s ast.Stmt) (kinds []string) {
 		ast.Inspect(s, visit)
 	}
 	return kinds
+}
+
+// isSyncish guesses (by name) that a receiver is a sync.Map, an atomic value or a counter.
+func isSyncish(e ast.Expr) bool {
+	name := ""
+	switch x := e.(type) {
+	case *ast.Ident:
+		name = x.Name
+	case *ast.SelectorExpr:
+		name = x.Sel.Name
+	}
+	name = strings.ToLower(name)
+	for _, k := range []string{"conn", "map", "count", "counter", "sess", "cache", "atomic", "flag", "state", "seq", "id"} {
+		if strings.Contains(name, k) {
+			return true
+		}
+	}
+	return false
 }
 
 func methodCallStmt(s ast.Stmt) (recv ast.Expr, name string, ok bool) {
